@@ -1600,8 +1600,12 @@ class HorosphereArc(Horosphere, PointPair):
 
         thetas = utils.circle_angles(center, model_coords)
 
+        # circle_angles expects an array of points (..., k, 2) for each
+        # circle: give the ideal centre its own point axis, otherwise a
+        # composite object is broadcast against itself
         center_theta = utils.circle_angles(
-            center, self.center_coords(model=model)
+            center,
+            np.expand_dims(self.center_coords(model=model), axis=-2)
         )[..., 0]
 
         thetas = np.flip(utils.arc_include(thetas, center_theta), axis=-1)
